@@ -1,11 +1,14 @@
 SPECIFICATION MSpec
 CONSTANTS
-  Routers = {"P"}
+  Routers = {"P", "L"}
   Ops = {"Authorize", "Login", "Callback", "CodeExchange"}
   MaxReq = 3
   MaxCode = 4
   MaxAT = 6
   MaxDev = 3
+  MaxSteps = 99
+  Seeded = FALSE
+  Vary = {"post", "refresh"}
   Narrow = TRUE
   Depth = 14
 INVARIANT Emit
